@@ -134,7 +134,7 @@ def is_rising(bins: ArrayLike) -> bool:
     return True
 
 
-def is_consecutive(bins: ArrayLike, rtol: float = 1.0e-5, atol: float = 1.0e-8) -> bool:
+def is_consecutive(bins: ArrayLike, rtol: float = 0.0, atol: float = 0.0) -> bool:
     """Check whether the bins are consecutive (edges match).
 
     Does not check if the bins are in rising order.
